@@ -8,8 +8,8 @@
     ShardBuilder.Add against the destination builder; shards ordered by priority; tombstoned repositories
     skipped; non-contiguous repository ids rejected).  Repositories without documents are lost by design
     (they have no entry in [view]). *)
-From ZV Require Import Lib.Base Model.MergeDocs Proofs.MergeDocsProofs.
-From Coq Require Import Permutation.
+From ZV Require Import Lib.Base Model.MergeDocs Proofs.MergeDocsProofs Proofs.MergeDocsTotal Proofs.MergeDocsSearch.
+From Coq Require Import Permutation Sorted.
 
 (** the merged shard shows exactly the documents of the inputs' live repositories, shard by shard in
     priority order, each with the same name, content, branches, language, sub-repository path, symbols *)
@@ -80,6 +80,124 @@ Proof.
 Qed.
 Print Assumptions C16_tombstoned_dropped.
 
+(** ---- totality.  [mergeable sh] (Proofs/MergeDocsTotal.v) = what index/merge.go needs beyond [wf_shard]:
+      StronglySorted le (live_ids sh (sh_docs sh))   the repo indices of the documents of live repositories never
+                                                     decrease in document order (else "non-contiguous repo ids")
+      Forall (br64 sh) (sh_docs sh)                  every live repository that has a document has <= 64 branches
+                                                     (else setRepository fails)
+    On well-formed mergeable input merge / explode return a builder: no error, no panic (decode's slice
+    indexing, Add's sub-repository and branch lookups cannot fail). *)
+Theorem C16_merge_total :
+  forall (shards : list shard),
+    shards <> [] -> Forall wf_shard shards -> Forall mergeable shards ->
+    exists b, merge shards = Ok b.
+Proof. exact merge_total. Qed.
+Print Assumptions C16_merge_total.
+
+Theorem C16_explode_total :
+  forall (sh : shard), wf_shard sh -> mergeable sh -> exists outs, explode sh = Ok outs.
+Proof. exact explode_total. Qed.
+Print Assumptions C16_explode_total.
+
+(** the extra hypothesis is necessary: whenever merge succeeds (on any input at all) every input was mergeable *)
+Theorem C16_merge_ok_mergeable :
+  forall (shards : list shard) (b : shard), merge shards = Ok b -> Forall mergeable shards.
+Proof. exact merge_ok_mergeable. Qed.
+Print Assumptions C16_merge_ok_mergeable.
+
+(** totality + preservation: on well-formed mergeable input the merge exists, shows exactly the inputs' content
+    in priority order, and can itself be merged / exploded again *)
+Theorem C16_merge_total_preserves :
+  forall (shards : list shard),
+    shards <> [] -> Forall wf_shard shards -> Forall mergeable shards ->
+    exists b, merge shards = Ok b /\ view b = flat_map view (sort_prio shards) /\
+              Permutation (view b) (flat_map view shards) /\ wf_shard b /\ mergeable b.
+Proof.
+  intros shards Hne Hwf Hmg. destruct (C16_merge_total shards Hne Hwf Hmg) as [b Hb]. exists b.
+  split; [exact Hb|]. split; [apply C16_merge_preserves; auto|]. split; [apply C16_merge_preserves_any_order; auto|].
+  split; [eapply C16_merge_output_wf; eauto|]. eapply merge_output_mergeable; eauto.
+Qed.
+Print Assumptions C16_merge_total_preserves.
+
+Theorem C16_explode_total_preserves :
+  forall (sh : shard), wf_shard sh -> mergeable sh ->
+    exists outs, explode sh = Ok outs /\ flat_map view outs = view sh /\
+                 Forall (fun o => length (sh_repos o) = 1%nat) outs.
+Proof.
+  intros sh Hwf Hmg. destruct (C16_explode_total sh Hwf Hmg) as [outs Ho]. exists outs.
+  split; [exact Ho|]. apply C16_explode_preserves; auto.
+Qed.
+Print Assumptions C16_explode_total_preserves.
+
+(** the whole round trip exists: merge, then explode, gives back the inputs' content *)
+Theorem C16_merge_explode_total :
+  forall (shards : list shard),
+    shards <> [] -> Forall wf_shard shards -> Forall mergeable shards ->
+    exists b outs, merge shards = Ok b /\ explode b = Ok outs /\
+                   flat_map view outs = flat_map view (sort_prio shards).
+Proof.
+  intros shards Hne Hwf Hmg. destruct (merge_explode_total shards Hne Hwf Hmg) as [b [outs [Hb Ho]]].
+  exists b, outs. split; [exact Hb|]. split; [exact Ho|]. eapply C16_explode_merge_id; eauto.
+Qed.
+Print Assumptions C16_merge_explode_total.
+
+(** tie of the Go oracle keys merge:error / explode:error to these preconditions: the runner [c16_ok] evaluates
+    [wf_shardb && mergeableb] on every input of every generated case; a case it accepts satisfies the hypotheses
+    of the theorems above, and the implementation did not fail on it *)
+Theorem C16_runner_accepts_only_successes :
+  forall (mode : N) (inputs : list shard) (failed : bool) (outs : list oshard),
+    c16_ok (mode, inputs, failed, outs) = true -> inputs <> [] ->
+    Forall wf_shard inputs /\ Forall mergeable inputs /\ failed = false.
+Proof. exact c16_ok_no_failure. Qed.
+Print Assumptions C16_runner_accepts_only_successes.
+
+(** ---- "searches return the same matches", for every document-local engine.
+    [engine q sh] = the result of query q over shard sh; the hypothesis says that it is the concatenation over
+    the visible documents (those of live repositories, in document order) of a per-document function of the
+    repository id and the decoded document.  For indexData.Search this is what C01 proves of the search core
+    ([search = spec_search = filter (live && eval q)] with [eval] reading only the document and its repository;
+    C01_search_exact_regexp_free, C01_search_exact_partial) -- here it is a HYPOTHESIS about the engine, tested by
+    the Go oracle's query battery, not derived from the C01 model (whose corpus type differs). *)
+Theorem C16_search_preserved_merge :
+  forall (Q R : Type) (doc_match : Q -> N * ddoc -> list R) (engine : Q -> shard -> list R),
+    (forall q sh, engine q sh = flat_map (doc_match q) (view sh)) ->
+    forall (q : Q) (shards : list shard) (b : shard),
+      Forall wf_shard shards -> merge shards = Ok b ->
+      engine q b = flat_map (engine q) (sort_prio shards) /\
+      Permutation (engine q b) (flat_map (engine q) shards).
+Proof.
+  intros Q R dm engine Hloc q shards b Hwf Hm. split.
+  - eapply search_preserved_merge_prio; eauto.
+  - eapply search_preserved_merge; eauto.
+Qed.
+Print Assumptions C16_search_preserved_merge.
+
+Theorem C16_search_preserved_explode :
+  forall (Q R : Type) (doc_match : Q -> N * ddoc -> list R) (engine : Q -> shard -> list R),
+    (forall q sh, engine q sh = flat_map (doc_match q) (view sh)) ->
+    forall (q : Q) (sh : shard) (outs : list shard),
+      wf_shard sh -> explode sh = Ok outs ->
+      flat_map (engine q) outs = engine q sh.
+Proof. intros Q R dm engine Hloc q sh outs Hwf He. eapply search_preserved_explode; eauto. Qed.
+Print Assumptions C16_search_preserved_explode.
+
+(** listing: per repository id the same number of visible documents, and the same repositories visible *)
+Theorem C16_listing_preserved_merge :
+  forall (id : N) (shards : list shard) (b : shard),
+    Forall wf_shard shards -> merge shards = Ok b ->
+    doc_count id b = list_sum (map (doc_count id) shards) /\
+    (visible id b <-> exists sh, In sh shards /\ visible id sh).
+Proof. exact listing_preserved_merge. Qed.
+Print Assumptions C16_listing_preserved_merge.
+
+Theorem C16_listing_preserved_explode :
+  forall (id : N) (sh : shard) (outs : list shard),
+    wf_shard sh -> explode sh = Ok outs ->
+    list_sum (map (doc_count id) outs) = doc_count id sh /\
+    ((exists o, In o outs /\ visible id o) <-> visible id sh).
+Proof. exact listing_preserved_explode. Qed.
+Print Assumptions C16_listing_preserved_explode.
+
 (** ---- non-vacuity *)
 Definition ex_r1 := {| sr_id := 1; sr_prio := 10; sr_tomb := false; sr_branches := [11; 12]; sr_subs := [0; 21] |}%N.
 Definition ex_r2 := {| sr_id := 2; sr_prio := 30; sr_tomb := false; sr_branches := [12]; sr_subs := [0] |}%N.
@@ -112,3 +230,33 @@ Example ex_noncontiguous :
   merge [{| sh_repos := [ex_r1; ex_r2]; sh_langs := [41]%N;
             sh_docs := [ex_doc 1 1 [true] 0 0; ex_doc 2 0 [true; false] 0 0] |}] = Err 4.
 Proof. vm_compute. reflexivity. Qed.
+
+(** the examples satisfy the totality hypotheses (decided by the booleans the runner also evaluates) *)
+Example ex_mergeable : Forall mergeable [ex_s1; ex_s2] /\ [ex_s1; ex_s2] <> [].
+Proof. split; [constructor; [|constructor; [|constructor]]; apply mergeableb_true; vm_compute; reflexivity|discriminate]. Qed.
+Example ex_wfb : forallb wf_shardb [ex_s1; ex_s2] = true /\ forallb mergeableb [ex_s1; ex_s2] = true.
+Proof. vm_compute. split; reflexivity. Qed.
+(** the 64-branch bound is necessary: a well-formed single shard whose live repository has 65 branches is
+    rejected (setRepository), by merge and by explode *)
+Definition ex_r65 := {| sr_id := 9; sr_prio := 1; sr_tomb := false;
+                        sr_branches := map N.of_nat (seq 1 65); sr_subs := [0] |}%N.
+Definition ex_s65 : shard := {| sh_repos := [ex_r65]; sh_langs := [41]%N;
+  sh_docs := [ex_doc 1 0 (true :: repeat false 64) 0 0] |}.
+Example ex_65_branches :
+  wf_shardb ex_s65 = true /\ mergeableb ex_s65 = false /\ merge [ex_s65] = Err 3 /\ explode ex_s65 = Err 3.
+Proof. vm_compute. repeat split. Qed.
+(** ... but harmless on a tombstoned repository (its documents are skipped) *)
+Example ex_65_tombstoned :
+  let r := {| sr_id := 9; sr_prio := 1; sr_tomb := true; sr_branches := sr_branches ex_r65; sr_subs := [0] |}%N in
+  let s := {| sh_repos := [r; ex_r1]; sh_langs := [41]%N;
+              sh_docs := [ex_doc 1 0 (true :: repeat false 64) 0 0; ex_doc 2 1 [true; false] 0 0] |} in
+  mergeableb s = true /\ exists b, merge [s] = Ok b /\ map fst (view b) = [1]%N.
+Proof. split; [vm_compute; reflexivity|]. eexists. vm_compute. split; reflexivity. Qed.
+(** a concrete document-local engine: "files whose content id is c", reporting (repo id, file name) *)
+Example ex_search :
+  let dm := fun (c : N) (e : N * ddoc) => if N.eqb (dd_content (snd e)) c then [(fst e, dd_name (snd e))] else [] in
+  let engine := fun c sh => flat_map (dm c) (view sh) in
+  exists b, merge [ex_s1; ex_s2] = Ok b /\ engine 102%N b = [(1, 2)]%N /\
+            flat_map (engine 102%N) [ex_s1; ex_s2] = [(1, 2)]%N /\
+            doc_count 1 b = 2%nat /\ doc_count 2 b = 1%nat /\ doc_count 3 b = 0%nat.
+Proof. eexists. vm_compute. repeat split. Qed.
